@@ -1,8 +1,11 @@
 package harness
 
 import (
+	"bytes"
+	"encoding/base64"
 	"fmt"
 	"io"
+	"net/http"
 	"math/rand/v2"
 	"sort"
 	"strconv"
@@ -103,8 +106,13 @@ func muxHarness(rc *RunCtx) {
 	kind := "adapter"
 	if rc.Params["transport"] != "" {
 		kind = rc.Params["transport"]
-	} else if tp.Intn("cfg", 3) == 0 {
-		kind = "nats"
+	} else {
+		switch tp.Intn("cfg", 5) {
+		case 0:
+			kind = "nats"
+		case 1:
+			kind = "http"
+		}
 	}
 	m.kind = kind
 	m.byDseq = map[string]*muxDelivery{}
@@ -168,6 +176,9 @@ func muxHarness(rc *RunCtx) {
 			}
 			return nil, false
 		}
+	} else if kind == "http" {
+		hc := &http.Client{Transport: &muxRoundTripper{m: m}}
+		tr = frugal.NewFHTTPTransportBuilder(hc, "http://sim/frugal").Build()
 	} else {
 		b = NewSimBroker(rc)
 		b.OnPublish = func(c *BrokerConn, subject, reply string, hdr, data []byte) bool {
@@ -559,4 +570,124 @@ func (m *muxState) check(tr frugal.FTransport, canary *muxCall, finished bool, b
 		rc.Violate("C06", "wedged-task", w, "task still blocked at "+w+" after all callers returned and the transport was closed")
 	}
 	_ = blockedWrites
+}
+
+// ---- HTTP peer --------------------------------------------------------------------
+
+// muxRoundTripper plays the HTTP server and net/http's Transport for the mux
+// harness: it answers, stays silent, answers late, sends the headers and then
+// stalls in the body, or answers with an error status. Like net/http it
+// honours cancellation of the request context.
+type muxRoundTripper struct{ m *muxState }
+
+type stallBody struct {
+	first []byte
+	req   *http.Request
+	site  int
+}
+
+func (b *stallBody) Read(p []byte) (int, error) {
+	if len(b.first) > 0 {
+		n := copy(p, b.first)
+		b.first = b.first[n:]
+		return n, nil
+	}
+	simrt.Recv(b.site, b.req.Context().Done())
+	return 0, b.req.Context().Err()
+}
+func (b *stallBody) Close() error { return nil }
+
+func (rt *muxRoundTripper) RoundTrip(req *http.Request) (*http.Response, error) {
+	m := rt.m
+	tp := m.rc.Tape
+	site := simrt.HarnessSite("mux.http-roundtrip")
+	raw, _ := io.ReadAll(req.Body)
+	req.Body.Close()
+	frame, _ := base64.StdEncoding.DecodeString(string(raw))
+	f, err := DecodeFrame(frame)
+	if err != nil {
+		m.rc.Violate("INFRA", "http-peer-decode", "request", err.Error())
+		return nil, err
+	}
+	c := m.byTag[f.Headers["tag"]]
+	if c == nil {
+		m.rc.Violate("INFRA", "http-peer-unknown-tag", "request", f.Headers["tag"])
+		return nil, fmt.Errorf("unknown tag")
+	}
+	c.seen = true
+	wait := func(d time.Duration) bool { // false: the request context ended first
+		if d <= 0 {
+			simrt.Pre(site)
+			return req.Context().Err() == nil
+		}
+		tm := time.NewTimer(d)
+		defer tm.Stop()
+		i, _, _ := simrt.Select(site, false, simrt.RecvCase(req.Context().Done()), simrt.RecvCase(tm.C))
+		return i == 1
+	}
+	body := []byte{0, 0, 0, 0}
+	if !c.oneway {
+		body = EncodeFrame(map[string]string{"_opid": c.opid, "_cid": "x", "tag": c.tag}, []byte("resp:"+c.tag))
+	}
+	enc := base64.StdEncoding.EncodeToString(body)
+	respond := func(status int, rc io.ReadCloser) *http.Response {
+		return &http.Response{StatusCode: status, Status: http.StatusText(status), Proto: "HTTP/1.1", ProtoMajor: 1, ProtoMinor: 1,
+			Header: http.Header{}, Body: rc, Request: req}
+	}
+	k := 0
+	if c.plan != "canary" {
+		k = tp.Pick("peer", 5, func(r *rand.Rand) int {
+			x := r.IntN(100)
+			switch {
+			case x < 40:
+				return 0
+			case x < 60:
+				return 1
+			case x < 75:
+				return 2
+			case x < 90:
+				return 3
+			}
+			return 4
+		})
+	}
+	switch k {
+	case 0:
+		if c.plan == "" {
+			c.plan = "once"
+		}
+		if !wait(time.Duration(tp.Intn("peer", 4)) * time.Millisecond) {
+			return nil, req.Context().Err()
+		}
+		d := &muxDelivery{kind: "answer", handedStep: m.s.Step, deliveredAt: m.s.Now(), deliveredStep: m.s.Step}
+		c.deliveries = append(c.deliveries, d)
+		return respond(200, io.NopCloser(bytes.NewReader([]byte(enc)))), nil
+	case 1:
+		c.plan = "never"
+		m.rc.Fault("no-response")
+		simrt.Recv(site, req.Context().Done())
+		return nil, req.Context().Err()
+	case 2:
+		c.plan = "late"
+		m.rc.Fault("late-response")
+		if !wait(c.timeout + time.Duration(1+tp.Intn("peer", 50))*time.Millisecond) {
+			return nil, req.Context().Err()
+		}
+		return respond(200, io.NopCloser(bytes.NewReader([]byte(enc)))), nil
+	case 3:
+		c.plan = "headers-then-stalled-body"
+		m.rc.Fault("http-body-stalls-after-headers")
+		if !wait(time.Duration(tp.Intn("peer", 4)) * time.Millisecond) {
+			return nil, req.Context().Err()
+		}
+		return respond(200, &stallBody{first: []byte(enc[:len(enc)/2]), req: req, site: simrt.HarnessSite("mux.http-body-stalled")}), nil
+	default:
+		c.plan = "error-status"
+		c.sendFault = "http-status"
+		m.rc.Fault("http-error-status")
+		if !wait(time.Duration(tp.Intn("peer", 4)) * time.Millisecond) {
+			return nil, req.Context().Err()
+		}
+		return respond([]int{500, 503, 404}[tp.Intn("peer", 3)], io.NopCloser(bytes.NewReader([]byte("nope")))), nil
+	}
 }
